@@ -73,7 +73,9 @@ def run_misc(p):
                "joined": t2.b if joined else t1.b,
                "own-star": t1.star, "foreign-star": P.Table("t9").star, "joined-star": t2.star if joined else t1.star,
                "own-expr": t1.b + 1, "foreign-expr": P.Table("t9").b + 1, "mixed-expr": t1.b + P.Table("t9").b,
-               "own-case": P.Case().when(t1.b == 1, t1.a).else_(0), "foreign-case": P.Case().when(t1.b == 1, P.Table("t9").a).else_(0)}[what]
+               "own-case": P.Case().when(t1.b == 1, t1.a).else_(0), "foreign-case": P.Case().when(t1.b == 1, P.Table("t9").a).else_(0),
+               "own-func": fn.Lower(t1.b), "foreign-func": fn.Lower(P.Table("t9").b), "foreign-func-nested": fn.Coalesce(fn.Upper(P.Table("t9").b), t1.a),
+               "own-tuple": P.Tuple(t1.a, t1.b), "foreign-tuple": P.Tuple(t1.a, P.Table("t9").b)}[what]
         joined = (what in ("joined", "joined-star")) and kind in ("update", "delete")
         holder = {}
 
